@@ -115,3 +115,121 @@ prop(
     ),
     assumptions=["os.replace is atomic on POSIX; a killed process loses only its unflushed user-space buffers", "power loss without fsync is outside the statement"],
 )
+
+PYVC = "contract-based deductive verification: sidecar contracts on the real functions, VCs generated from the AST (vf/pyvc.py), discharged by z3/cvc5"
+BOUNDED_NOTE = " Functions outside the prover's reach are covered by the bounded stand-in: the real commands run on enumerated small worlds against an independent oracle derived from the statement (labelled bounded, never counted as proved)."
+
+
+def other(pid, text, prover=True, static=False, lemmas=False, assumptions=(), technique=None):
+    prop(
+        pid,
+        level="other",
+        prover=prover,
+        static=static,
+        lemmas=lemmas,
+        bounded=pid.lower(),
+        technique=technique or (PYVC + " for the kernel functions; bounded small-world runs of the command loops"),
+        explanation=text + BOUNDED_NOTE,
+        assumptions=list(assumptions),
+    )
+
+
+other(
+    "C02",
+    "Proved: routing of a path to its history (find_history_for_path naming contract), record creation "
+    "(find_or_create_media_hash_for_path: exactly one record per path, indexed, fresh when new), entry append, digest functions (C01). "
+    "Bounded: the traversal generator and the children loop of create_for_folder_subcommand / create_for_single_files_subcommand.",
+    assumptions=["pathspec.match_file is a function of (patterns, relative path)", "POSIX paths, no symlinked directories inside the tree"],
+)
+other(
+    "C03",
+    "Proved: exit-code constants (ground obligations on errors.py), find_original_hash_entry_for_path (the reference is the first "
+    "'original' entry in generation order), history-load dominance. Bounded: the three traversal loops and exit-decision tails of "
+    "verify / diff / create on every single and pairwise mutation of small sealed worlds.",
+    static=True,
+    assumptions=["collision resistance (CR) for 'detects every change'", "click maps ClickException.exit_code to the process exit code"],
+)
+other(
+    "C04",
+    "Proved: find_original / find_first / find_existing_hash_formats (loop invariants over generations and entries, ghost witness "
+    "lists), append_file_hash's judgement (original iff never recorded as original, else new / verified / failed against the FIRST "
+    "entry of the format in the pre-state history; result == not failed), _validate_new_hash_list is covered by the bounded part, "
+    "lemmas L_first_excl / L_orig_excl. Bounded: seal_file_path's ordering of calls and the command loops, on all format-subset "
+    "sequences of length 3 with content kept / altered / restored.",
+    assumptions=["the session's new hash lists are disjoint from the loaded history's lists (ownership, structural)"],
+)
+other(
+    "C06",
+    "Proved: latest_generation_number == n under the representation invariant (numbers 1..n ascending), manifest-before-chain and "
+    "children-before-parents order in commit, old chain entries are rendered from the loaded chain only (read frame), write frames "
+    "of the writers (C14) so existing manifests are outside every frame. Bounded: numbering, names, chain contents over long "
+    "sequences of runs (>= 11 generations, failing runs, nested histories, several runs per second).",
+    static=True,
+)
+other(
+    "C07",
+    "Proved: hash_of_hash_list (digest of the concatenated decoded digests of the SORTED list, empty list = empty input, for all "
+    "seven classes), DirectoryHashContext.append_file_hash / append_directory_hashes (structure entry = digest(utf8(name) + "
+    "decode(child STRUCTURE hash))), final_content/structure_hash_str, the C4 and hex codecs (C01) incl. induction lemmas. "
+    "Bounded: the command loops feeding the contexts (create, verify -dh) against an independent implementation of the definition.",
+    lemmas=True,
+    assumptions=["collision resistance (CR) for the 'changes whenever' clauses", "os.path.basename/normpath of a path give its last component"],
+)
+other(
+    "C08",
+    "Proved: find_history_for_path (routing; naming contract used by append_file_hash), commit order obligations (children before "
+    "parents, manifest before chain). Bounded: discovery (_find_and_load_child_histories), references and copied root hashes on all "
+    "placements of nested histories incl. prefix-named siblings and depth-4 chains.",
+    static=True,
+)
+other(
+    "C09",
+    "Bounded: verify_directory_hash_subcommand as a whole (200-line body with nested closures) on every single mutation at every "
+    "depth incl. the root, histories with -n / -sf generations and nested histories with differing formats. Proved kernel: the "
+    "directory hash functions (C07) it calls.",
+    prover=False,
+    technique="bounded small-world runs of the real command against the definition of C07 (the command body is outside the VC generator's subset); the directory-hash kernel is proved under C07",
+)
+other(
+    "C10",
+    "Bounded: writer/reader round trip on enumerated model objects and on every manifest the small worlds produce, plus an "
+    "independent ElementTree reader. The lxml element builders and the event-driven reader are outside the VC generator's subset.",
+    prover=False,
+    technique="bounded round-trip runs of the real writer and reader with an independent XML reader (lxml builders / iterparse state machine are outside the VC generator's subset)",
+)
+other(
+    "C11",
+    "Bounded: lxml XMLSchema validation (the XSDs of the current tree) of every manifest / chain / collection file written over all "
+    "option combinations, failing runs, reference-only parents, empty folders.",
+    prover=False,
+    technique="bounded: independent XSD validation of every file written on enumerated worlds and option combinations",
+)
+other(
+    "C12",
+    "Proved: MHLIgnoreSpec._append_patterns_list (desugared extend-generator loop: old list is a prefix, nothing lost, nothing "
+    "else added, duplicate-free, exact equality for a duplicate-free list appended to the empty list), set_patterns / __init__ "
+    "(duplicate-free; recorded list kept as prefix in order; defaults first otherwise; command-line patterns included), "
+    "call-site obligations (every command builds latest+CLI+file, traversal and missing-file filter use it, commit gives every "
+    "written generation latest(history)+session patterns unconditionally). Bounded: pattern semantics (pathspec) end to end.",
+    static=True,
+    assumptions=["pathspec gitwildmatch semantics", "_append_patterns_from_file hands the file's lines to _append_patterns_list (file reading not modelled)"],
+)
+other(
+    "C13",
+    "Bounded: byte comparison of manifests and chains of identical trees sealed at different root locations / spellings and under "
+    "permuted directory enumeration, frozen clock; relocated copies verified. Proved kernel: the functions are location-free "
+    "by their contracts (record paths via route / relpath; digests depend on bytes only).",
+    prover=False,
+    technique="bounded relational runs (same tree, different location / enumeration order) with byte comparison",
+)
+other("C16", "Bounded: sizes and ISO-8601 dates of written manifests against the file system under many TZ settings incl. DST switches.",
+      prover=False, technique="bounded runs under many TZ settings with an independent ISO-8601 parser")
+other("C17", "Proved: find_hash_entry_for_format, find_first_hash_entry_for_path (used to match renamed files). Bounded: the rename "
+      "matching region of create -dr and the follow-up commands on all sets of simultaneous renames / moves.")
+other("C18", "Proved: append_file_hash with an action override (the entry carries exactly the given action), find_or_create_media_hash_for_path "
+      "(one record per path). Bounded: the merge loops of flatten_history and verify -pl.")
+other("C19", "Bounded: info / info -sf output against the manifests read independently; no-history exit code.", prover=False,
+      technique="bounded runs comparing the printed lines with an independent reading of the manifests")
+other("C20", "Bounded: the real CLI entry points in subprocesses against a local server playing every listed network behaviour; exit code, "
+      "stdout and extra wall time compared with the command run without updater.", prover=False,
+      technique="bounded subprocess runs against a scripted local update server (thread schedules and real time are outside contracts)")
